@@ -15,15 +15,15 @@ Connect == /\ Live("connect")
                         <<"C14.LazyConnectNeverFails", s.stim.lazy => (E.res = "ok" /\ E.consumed = <<>>)>> >>,
                      [s EXCEPT !.connected = (E.res = "ok"), !.alive = (E.consumed # <<>> /\ Last(E.consumed) = "S")])
            /\ Count(IF E.res = "err" THEN {"eager_failures"} ELSE {})
-\* a drop that the client had no chance to notice may cost one call (any status); the harness waits for quiescence, so this is slack
+\* The harness waits for quiescence after every scripted drop (the client's connection task has seen the end of its
+\* transport before the next call is issued), so a call after a drop must find the connection gone and re-dial.
 Call == /\ Live("call")
         /\ LET aliveNow == s.alive /\ E.killed_before = 0
                usable == (E.consumed = <<>> /\ aliveNow) \/ (E.consumed # <<>> /\ Last(E.consumed) = "S")
-               charged == \E i \in 1..Len(E.consumed) : E.consumed[i] = "F"
-               unnoticedDrop == E.killed_before > 0 /\ E.consumed = <<>> /\ E.res = "err" IN
+               charged == \E i \in 1..Len(E.consumed) : E.consumed[i] = "F" IN
            /\ JudgeK(<< <<"C14.EveryCallCompletes", E.res # "hang">>,
-                        <<"C14.SucceedsWhenPeerReachable", (usable /\ ~unnoticedDrop) => E.res = "ok">>,
-                        <<"C14.FailureOnlyToTriggeringCall", (E.res = "err" /\ ~unnoticedDrop) => charged>>,
+                        <<"C14.SucceedsWhenPeerReachable", usable => E.res = "ok">>,
+                        <<"C14.FailureOnlyToTriggeringCall", E.res = "err" => charged>>,
                         <<"C14.UnavailableWhileNoConnection", (E.res = "err" /\ charged /\ ~usable) => E.code = 14>>,
                         <<"C14.NoSuccessWithoutConnection", E.res = "ok" => usable>>,
                         <<"HarnessOK", s.connected>> >>,
